@@ -47,6 +47,19 @@ func (f *Facts) cond(e ast.Expr) string {
 	return strings.ReplaceAll(f.src(e), "\"", "'")
 }
 
+// ifCond is the condition of an if statement, with its init statement when there is one (two
+// `if _, ok := m[k]; ok` tests differ only there)
+func (f *Facts) ifCond(is *ast.IfStmt) string {
+	if is.Init != nil {
+		return f.cond2(is.Init) + "; " + f.cond(is.Cond)
+	}
+	return f.cond(is.Cond)
+}
+
+func (f *Facts) cond2(n ast.Node) string {
+	return strings.ReplaceAll(f.src(n), "\"", "'")
+}
+
 func (f *Facts) guardPaths(body *ast.BlockStmt, match func(*ast.CallExpr) bool) []guardPath {
 	var out []guardPath
 	var walkBlock func(stmts []ast.Stmt, conds []string)
@@ -68,7 +81,7 @@ func (f *Facts) guardPaths(body *ast.BlockStmt, match func(*ast.CallExpr) bool) 
 			if st.Init != nil {
 				scan(st.Init, conds)
 			}
-			c := f.cond(st.Cond)
+			c := f.ifCond(st)
 			walkBlock(st.Body.List, append(append([]string{}, conds...), c))
 			if st.Else != nil {
 				neg := append(append([]string{}, conds...), "!("+c+")")
@@ -94,7 +107,7 @@ func (f *Facts) guardPaths(body *ast.BlockStmt, match func(*ast.CallExpr) bool) 
 		for _, s := range stmts {
 			walkStmt(s, cur)
 			if is, ok := s.(*ast.IfStmt); ok && is.Else == nil && terminates(is.Body) {
-				cur = append(cur, "!("+f.cond(is.Cond)+")")
+				cur = append(cur, "!("+f.ifCond(is)+")")
 			}
 		}
 	}
@@ -195,5 +208,29 @@ func init() {
 			}
 		}
 		f.strListListFact("mergeFFPaths", mergePaths)
+	})
+}
+
+func init() {
+	extra = append(extra, func(f *Facts) {
+		// C05: the per-cell decision chain of tryResolve: guards in front of every unresolveCol(i) in the
+		// loop over the distinct rows
+		tr := f.funcDecl("pkg/merge/row_resolver.go", "RowResolver", "tryResolve")
+		var unres [][]string
+		if tr != nil {
+			var loop *ast.RangeStmt
+			ast.Inspect(tr.Body, func(n ast.Node) bool {
+				if r, ok := n.(*ast.RangeStmt); ok && f.src(r.X) == "r.rows.Values" {
+					loop = r
+				}
+				return true
+			})
+			if loop != nil {
+				for _, p := range f.guardPaths(loop.Body, func(c *ast.CallExpr) bool { return f.src(c.Fun) == "unresolveCol" }) {
+					unres = append(unres, p.conds)
+				}
+			}
+		}
+		f.strListListFact("resolveUnresolvePaths", unres)
 	})
 }
